@@ -19,8 +19,26 @@ NEC = ('Necessary conditions only: the rules are structural necessary conditions
 CLAIMS = {
     # pid: (technique, level text, design_ref, not-decided note)
     'C01': ('path-sensitive predicate-abstraction evaluation of process_msg / recv_once (decision tables over id ordering), def-use of ids across MQ.recv/MQ.send',
-            'Decides, on every syntactic path of the receiver closures, the id-ordering decision table, reset-before-adopt, universal completeness and the id hand-over input->output. Behaviour under every interleaving is not decided.',
+            'Decides, on every syntactic path of the receiver closures, the id-ordering decision table, reset of the other sources on a newer id, universal completeness, the two-source completion decision and the id hand-over input->output.',
             'DESIGN.md §2 C01', 'Not decided: that the sets are right for every interleaving / loss pattern.'),
+    'C02': ('path evaluation of send_maybe / poll_recv / recv (monotone id stores, stale-send return, fast-forward guard), store enumeration, symbolic string templates for the topic wire encoding at publisher, subscriber and decoder',
+            'Decides monotonicity of ids on both sides as a store/guard discipline, the duplicate-topic raise, and that the three sites that must agree on the wire encoding of topic names do agree (hidden/normal/control cases).',
+            'DESIGN.md §2 C02', 'Not decided: duplicate suppression across reconnect histories; payload bytes.'),
+    'C03': ('path evaluation of Filter.process_frames and its deferred wrapper, MQ.send, send_maybe, poll_recv and request(); who-calls queries',
+            'Decides the process() result contract (None/Frame/dict/callable), deferred evaluation sites, None/{} semantics on the publish path, the handshake and the required-outputs gate.',
+            'DESIGN.md §2 C03', 'Not decided: losslessness under every admissible schedule.'),
+    'C04': ('decision table of the per-client loop in poll_recv, guard dominance of every publish in send_maybe, who-may-call for push/request, store enumeration of client removal',
+            'Decides the flag discipline that makes any buffering bound possible: requested set only by a request and cleared by every publish, no publish without permission, requests only from recv(), removal only on CLOSE / connection timeout.',
+            'DESIGN.md §2 C04', 'Not decided: the numeric bound itself (a runtime quantity).'),
+    'C05': ('same decision tables restricted to ephemeral rows; guard dominance of every use of the request socket; path evaluation of the ephemeral branch of recv_once',
+            'Decides that ephemeral clients cannot veto or fast-forward the publisher, that ?? sources have no request channel, per-source id tracking and reset exemptions.',
+            'DESIGN.md §2 C05', 'Not decided: "never delays the publisher" as a timing statement.'),
+    'C06': ('path evaluation of the wait loop, poller register/unregister typestate pairing, existence and reachability of the adoption and removal sites',
+            'Decides only the presence of each mechanism whose absence yields a permanent stall for some fault history (re-request, re-registration, id adoption in both directions, dead-client removal, handshake).',
+            'DESIGN.md §2 C06', 'Not decided: liveness under fair schedules, recovery time bounds.'),
+    'C07': ('path evaluation of send_maybe under balance (socket list shape, candidate filter), of the balanced branch of recv_once and of the prefetch guard',
+            'Decides one-socket-per-balanced-publish, one-source-at-a-time at the rejoin, no prefetch at the first hop, the balanced mark in the envelope, HELLO to all outputs.',
+            'DESIGN.md §2 C07', 'Not decided: strict ordering of the rejoined stream for unequal worker speeds.'),
 }
 
 NOT_APPLICABLE = {
